@@ -23,7 +23,7 @@ def delay_variants(tier):
     fixed = [0.0, 0.0025, 0.1, 0.3, 0.6, 1.5, 5.0] if tier == 'thorough' else [0.0, 0.0025, 0.3, 0.6, 1.5, 5.0]   # 1.5: one slot beyond the 5-slot horizon
     out = [dict(type='fixed', delay=v) for v in fixed]
     out += [dict(type='gaussian', mean=0.4, std=0.3)]
-    ks = [1.0, 2.5, 4.0] if tier == 'thorough' else [2.5]
+    ks = [1.0, 2.5, 4.0] if tier == 'thorough' else [1.0, 2.5]        # shape exactly 1 is the exponential special case
     out += [dict(type='gamma', k=k, theta=0.15) for k in ks]
     if tier == 'thorough':
         out += [dict(type='gaussian', mean=0.1, std=0.5), dict(type='fixed', delay='tau')]
@@ -46,6 +46,11 @@ def networks(dv, n0=2, k1=1.5, k2=0.5):
         spec('D4_two_delayed', [A, B, C], {A: n0, B: 1, C: 0},
              [dict(ma([A], [], k1), delay=D_([], [B])), dict(ma([B], [], k2), delay=dict(type='fixed', delay=0.3, reactants=[], products=[C])),
               ma([C], [A], k2)], params=P),
+        # a reaction whose delayed part only consumes, listed after / before one whose delayed part only produces
+        spec('D5_product_then_reactant', [A, B, C, D], {A: n0, B: 0, C: 3, D: 0},
+             [dict(ma([A], [D], k1), delay=D_([], [B])), dict(ma([D], [A], k2), delay=D_([C], []))], params=P),
+        spec('D5r_reactant_then_product', [A, B, C, D], {A: n0, B: 0, C: 3, D: 0},
+             [dict(ma([A], [D], k2), delay=D_([C], [])), dict(ma([D], [A], k1), delay=D_([], [B]))], params=P),
     ]
     return nets
 
